@@ -72,6 +72,59 @@ def _strip_docstrings(tree: ast.AST) -> None:
                 node.body = node.body[1:] or [ast.copy_location(ast.Pass(), first)]
 
 
+def _inline_return_temporaries(tree: ast.AST) -> None:
+    """`x = <expr>` immediately followed by `return x`, where x occurs nowhere in the function except in such pairs, is the same
+    program as `return <expr>`: the pairs are folded once after parsing so that no rule can depend on which of the two idioms
+    a function uses (measured with tools/benign_copy.py tempvar)."""
+    def blocks_of(fn: ast.AST):
+        for node in ast.walk(fn):
+            if node is not fn and isinstance(node, (ast.FunctionDef, ast.AsyncFunctionDef, ast.ClassDef, ast.Lambda)):
+                continue
+            for field in ("body", "orelse", "finalbody"):
+                v = getattr(node, field, None)
+                if isinstance(v, list) and v and isinstance(v[0], ast.stmt):
+                    yield node, field, v      # (ExceptHandler and match_case nodes carry their own `body`)
+
+    def pair_at(stmts: list, i: int):
+        st = stmts[i]
+        nxt = stmts[i + 1] if i + 1 < len(stmts) else None
+        if isinstance(st, ast.Assign) and len(st.targets) == 1 and isinstance(st.targets[0], ast.Name) \
+                and isinstance(nxt, ast.Return) and isinstance(nxt.value, ast.Name) and nxt.value.id == st.targets[0].id:
+            return st.targets[0].id
+        return None
+
+    for fn in [n for n in ast.walk(tree) if isinstance(n, (ast.FunctionDef, ast.AsyncFunctionDef))]:
+        pairs = {}
+        for _node, _field, stmts in blocks_of(fn):
+            for i in range(len(stmts)):
+                nm = pair_at(stmts, i)
+                if nm is not None:
+                    pairs[nm] = pairs.get(nm, 0) + 1
+        if not pairs:
+            continue
+        occ = {}
+        for n in ast.walk(fn):
+            if isinstance(n, ast.Name) and n.id in pairs:
+                occ[n.id] = occ.get(n.id, 0) + 1
+            elif isinstance(n, (ast.Global, ast.Nonlocal)):
+                for nm in n.names:
+                    occ[nm] = occ.get(nm, 0) + 99
+        foldable = {nm for nm, k in pairs.items() if occ.get(nm, 0) == 2 * k}
+        if not foldable:
+            continue
+        for node, field, stmts in list(blocks_of(fn)):
+            out, i = [], 0
+            while i < len(stmts):
+                nm = pair_at(stmts, i)
+                if nm in foldable:
+                    out.append(ast.copy_location(ast.Return(value=stmts[i].value), stmts[i]))
+                    i += 2
+                else:
+                    out.append(stmts[i])
+                    i += 1
+            setattr(node, field, out)
+
+
 class ModuleInfo:
     def __init__(self, repo: "Repo", path: Path, name: str, source: Optional[str] = None, rel: Optional[str] = None):
         self.repo = repo
@@ -82,6 +135,7 @@ class ModuleInfo:
         try:
             self.tree = ast.parse(self.source, filename=str(path))
             _strip_docstrings(self.tree)
+            _inline_return_temporaries(self.tree)
         except SyntaxError as e:  # pragma: no cover
             raise AnalysisError(f"cannot parse {path}: {e}")
         self.imports: Dict[str, str] = {}  # local name -> dotted target
